@@ -80,7 +80,7 @@ Closed table "Python construct -> model term" (anything else is REJECTED: broken
                                                                 implied by the branch condition for 0 <= theta <= 1
    t0 = self.initial_time                                       tinit
 
-Second generated module `lean/RtcVerif/Gen/CollocPlumbing.lean` (`gen_colloc_plumbing`, 9 obligations):
+Second generated module `lean/RtcVerif/Gen/CollocPlumbing.lean` (`gen_colloc_plumbing`, 11 obligations):
 
   firstHalfGen / secondHalfGen   index lists behind ca.vertcat(X[..], X[..])  = C01.explicitInds / implicitInds (idxOf raw ph)
   repeatedNominalsGen            np.tile(np.repeat(nominals, n-1), 2)          = C01.repeatedNominals
@@ -133,6 +133,11 @@ Second generated module `lean/RtcVerif/Gen/CollocPlumbing.lean` (`gen_colloc_plu
    not ca.symvar(const) / const.is_zero()                             sym = false / const = 0
    return a / return a + b, if (early return)                         nested if-then-else over the paths
    call sites: ensemble_aggregate["initial_state" | "initial_derivatives"] = reduce_matvec(<itself>, self.solver_input)
+ K13 cached functions  (transcribe() and clear_transcription_cache())
+   self.__x tested with `is None` / `is not None` in transcribe() and assigned there     a cache slot "x" (cacheSlotsGen)
+   clear_transcription_cache: only `self.__x = None` statements                           clearedSlotsGen
+   clearCoversCacheGen: every cache slot is cleared; clearThenFreshGen: transcription after a clear = fresh object
+        [TRUSTED: a slot is rebuilt from the current data exactly when it is None; nothing else is cached]
 """
 import ast
 import copy
@@ -1876,6 +1881,47 @@ def _k12_calls(F):
             raise TranslationError("K12: ensemble_aggregate[%r] does not go through reduce_matvec(<itself>, self.solver_input)" % key)
 
 
+# -- K13: cached functions vs clear_transcription_cache ------------------------------------------------
+
+
+def _k13(tree, F):
+    """slots transcribe() reads when cached (`self.__x is None` tests of attributes it also assigns) and the slots
+    clear_transcription_cache() resets"""
+    def priv(node):
+        if isinstance(node, ast.Attribute) and isinstance(node.value, ast.Name) and node.value.id == "self" \
+                and "__" in node.attr:
+            return node.attr.split("__")[-1]
+        return None
+
+    tested, assigned = set(), set()
+    for node in ast.walk(F.fn):
+        if isinstance(node, ast.Compare) and len(node.ops) == 1 and isinstance(node.ops[0], (ast.Is, ast.IsNot)) \
+                and isinstance(node.comparators[0], ast.Constant) and node.comparators[0].value is None and priv(node.left):
+            tested.add(priv(node.left))
+        if isinstance(node, ast.Assign):
+            for t in node.targets:
+                if priv(t):
+                    assigned.add(priv(t))
+    slots = sorted(tested & assigned)
+    if not slots:
+        raise TranslationError("K13: no lazily built cached function found in transcribe()")
+    cl = _find_method(tree, "CollocatedIntegratedOptimizationProblem", "clear_transcription_cache")
+    cleared = []
+    for st in cl.body:
+        if isinstance(st, ast.Expr) and isinstance(st.value, ast.Constant) and isinstance(st.value.value, str):
+            continue
+        if isinstance(st, ast.Assign) and all(priv(t) for t in st.targets) and isinstance(st.value, ast.Constant) \
+                and st.value.value is None:
+            cleared += [priv(t) for t in st.targets]
+            continue
+        raise TranslationError("K13: unsupported statement in clear_transcription_cache: " + _u(st))
+
+    def lst(xs):
+        return "[" + ", ".join('"%s"' % x for x in xs) + "]"
+
+    return dict(slots=lst(slots), cleared=lst(sorted(set(cleared))))
+
+
 PLUMB_TEMPLATE = """import RtcVerif.Model.C01Plumb
 import RtcVerif.Proofs.C01Plumb
 /-!
@@ -1979,18 +2025,32 @@ theorem initDersReducedGen_eq_model (I : Inst) (m : Nat) (X : Vec) (hnd : I.sys.
     rfl
   rw [h1, h2, initDers_affine, initDersCode_eq _ _ _ hnd]
 
+/-! cached functions: the slots `transcribe()` fills only when empty, the slots `clear_transcription_cache()` resets -/
+def cacheSlotsGen : List String := %(slots)s
+def clearedSlotsGen : List String := %(cleared)s
+
+theorem clearCoversCacheGen : ∀ s ∈ cacheSlotsGen, s ∈ clearedSlotsGen := by decide
+
+/-- after `clear_transcription_cache()` the next transcription is that of a fresh object with the current data -/
+theorem clearThenFreshGen {α β : Type} (build : α → String → β) (d : α) (cache : Cache β) :
+    transcribeWith cacheSlotsGen build d (clearSlots clearedSlotsGen cache)
+      = transcribeWith cacheSlotsGen build d (fun _ => none) :=
+  clear_then_fresh _ _ clearCoversCacheGen build d cache
+
 end RtcVerif.Gen
 """
 
 PLUMB_THEOREMS = ["indexListsGen_eq_model", "repeatedNominalsGen_eq_model", "interpolatedFlatGen_eq_model",
                   "reshapeShapeGen_eq_model", "stateMatrixGen_entries", "uRowGen_eq_model", "histDerGen_eq_model",
-                  "reduceMatvecGen_eq_model", "initDersReducedGen_eq_model"]
+                  "reduceMatvecGen_eq_model", "initDersReducedGen_eq_model", "clearCoversCacheGen", "clearThenFreshGen"]
 
 
 def translate_plumbing():
     path = os.path.join(REPO, *SRC)
-    fn = _find_method(ast.parse(open(path).read()), "CollocatedIntegratedOptimizationProblem", "transcribe")
+    tree = ast.parse(open(path).read())
+    fn = _find_method(tree, "CollocatedIntegratedOptimizationProblem", "transcribe")
     F = Fn(fn)
+    k13 = _k13(tree, F)
     k8 = _k8(F)
     k9 = _k9(F, k8)
     urow = _k10(F, k9)
@@ -2006,7 +2066,7 @@ def translate_plumbing():
     red = _k12()
     _k12_calls(F)
     return PLUMB_TEMPLATE % dict(first=k9["first"], second=k9["second"], rep=k9["rep"], shape=k9["shape"],
-                                 urow=urow, hist=k11["term"], reduce=red)
+                                 urow=urow, hist=k11["term"], reduce=red, slots=k13["slots"], cleared=k13["cleared"])
 
 
 def gen_colloc_plumbing(c):
